@@ -66,7 +66,7 @@ def run_shard(spec, tier, seed):
                         k += 1
                         run_case(res, {'served': served, 'ts': ts, 'contexts': [c1, c2],
                                        'ids': [5, 3] if k % 2 else [1, 255], 'probe': k % 9 == 0})
-            res.notes['exhaustive_contexts'] = spec['n']
+            res.notes['exhaustive_up_to_n_contexts'] = ['n<=%d' % spec['n']]
     else:
         for i in range(spec['lo'], spec['hi']):
             r = rng(seed, 'c09', i)
